@@ -29,6 +29,7 @@ Definition p_mraw (L : nat) : parser (mraw (GRS L)) :=
   else if t =? 2 then (a <- parr L ;; pret (M2 a))
   else if t =? 3 then (n <- pZ ;; m <- pZ ;; l <- plist (parr L) ;;
                        if forallb (fun a => (nr a =? n) && (nc a =? m)) l then pret (M3 n m l) else pfail)
+  else if t =? 4 then pret M4          (* an array of more than three dimensions: only its rank matters *)
   else pfail.
 (* one chain element: kind (0 Plane, 1 Pupil, 2 lentil.Tilt), then for a plane: amplitude, opd, mask, pixelscale,
    focal_length (Pupil), tilt list; for a Tilt: the stored attributes self.x, self.y, then its scalar amplitude and opd *)
